@@ -255,7 +255,13 @@ func c19Gen(t *rapid.T) c19Case {
 	for i := 0; i < n; i++ {
 		switch rapid.IntRange(0, 9).Draw(t, "kind") {
 		case 0, 1:
-			c.Actions = append(c.Actions, c19Action{Kind: "subscribe", Iface: rapid.SampledFrom(c19Ifaces).Draw(t, "iface"), Mask: uint(rapid.IntRange(1, 127).Draw(t, "mask"))})
+			// half of the masks come from a small set so that several subscribers share
+			// the same (interface, mask) registration
+			mask := uint(rapid.IntRange(1, 127).Draw(t, "mask"))
+			if rapid.Bool().Draw(t, "commonmask") {
+				mask = rapid.SampledFrom([]uint{uint(LinkDown), uint(LinkUp), uint(LinkUp | LinkDown), uint(LinkAny)}).Draw(t, "mask2")
+			}
+			c.Actions = append(c.Actions, c19Action{Kind: "subscribe", Iface: rapid.SampledFrom(c19Ifaces).Draw(t, "iface"), Mask: mask})
 		case 2, 3:
 			c.Actions = append(c.Actions, c19Action{Kind: "drain", Sub: rapid.IntRange(0, 7).Draw(t, "sub"), N: rapid.IntRange(1, 10).Draw(t, "n")})
 		case 4:
